@@ -214,7 +214,7 @@ func runDirect(c *core.Ctx, m *merger, fam string, start, count int, seed uint64
 			}
 			_ = json.Unmarshal(fine.LastLog(), &call)
 			msg, site := core.PanicSite(fine.Stderr)
-			sig := fmt.Sprintf("decoder=%s process-death msg=%q site=%s", fam, core.NormalizeMsg(msg), stripLine(site))
+			sig := fmt.Sprintf("decoder=%s process-death msg=`%s` site=%s", fam, core.NormalizeMsg(msg), stripLine(site))
 			c.Violation(sig, "the process died inside a decoder call (not recoverable): "+msg,
 				map[string]any{"family": fam, "cfg": call.Cfg, "input_base64": call.Input, "input_quoted": call.Q, "case": idx, "seed": seed,
 					"exit": fine.ExitCode, "signal": fine.Signal, "stderr_tail": core.Trunc(tail(fine.Stderr, 1500), 1500)})
@@ -273,7 +273,7 @@ func runPipe(c *core.Ctx, m *merger, cfg, start, count int, seed uint64) {
 		if again.Crashed() {
 			msg2, site2 := core.PanicSite(again.Stderr)
 			if core.NormalizeMsg(msg2) == core.NormalizeMsg(msg) && stripLine(site2) == stripLine(site) {
-				c.Violation(fmt.Sprintf("pipeline decoder=%s process-death msg=%q site=%s", label, core.NormalizeMsg(msg), stripLine(site)),
+				c.Violation(fmt.Sprintf("pipeline decoder=%s process-death msg=`%s` site=%s", label, core.NormalizeMsg(msg), stripLine(site)),
 					"the process died while Pipeline.In handled a line the direct decoder call survives: "+msg,
 					map[string]any{"cfg": label, "last_log": res.LastLog(), "seed": seed, "stderr_tail": core.Trunc(tail(res.Stderr, 1500), 1500)})
 				return
